@@ -443,7 +443,146 @@ def plan_C18(ctx):
     ctx.assumptions.append("documented flags (-h --help -V --version), a closed stdout (EPIPE) and argv that is not valid Unicode are outside the statement")
 
 
+def build_pyext():
+    """Builds the Python extension from /repo's working tree (guard off) and assembles the package as setup.py would."""
+    import shutil, subprocess
+    tdir = os.path.join(vcheck.WORK, "target-py")
+    rc, out = vcheck.run(["cargo", "build", "--offline", "--release", "--features", "python", "--lib", "--target-dir", tdir],
+                         cwd="/repo", env={"CARGO_NET_OFFLINE": "true", "RUSTFLAGS": ""})
+    if rc != 0:
+        raise ToolError("python extension build failed:\n" + out[-3000:])
+    pkg = os.path.join(vcheck.WORK, "pypkg", "jsonlogic_rs")
+    shutil.rmtree(os.path.join(vcheck.WORK, "pypkg"), ignore_errors=True)
+    os.makedirs(pkg)
+    shutil.copy("/repo/py/jsonlogic_rs/__init__.py", pkg)
+    shutil.copy(os.path.join(tdir, "release", "libjsonlogic_rs.so"), os.path.join(pkg, "jsonlogic.so"))
+    return os.path.join(vcheck.WORK, "pypkg")
+
+
+def run_py_scenarios(ctx, scen, source):
+    import subprocess
+    pkgdir = build_pyext()
+    outp = scen.replace(".ndjson", "") + ".py.out"
+    p = subprocess.run(["python3", os.path.join(vcheck.VERIF, "py", "driver.py"), scen, outp], env=dict(os.environ, PYTHONPATH=pkgdir),
+                       stdout=subprocess.DEVNULL, stderr=subprocess.PIPE, timeout=1800)
+    if p.returncode != 0:
+        # the interpreter itself died: attribute it to the scenario in progress
+        prog = outp + ".progress"
+        cur = open(prog).read() if os.path.exists(prog) else "?"
+        ctx.verdicts.add({"kind": "crash", "why": "the Python interpreter exited with status %s while running a scenario: %s" % (p.returncode, p.stderr.decode()[-300:]),
+                          "sc": ["C19"], "entry": "python", "rule": cur[:500], "data": "", "expected": "a return value or ValueError", "actual": "interpreter crash", "profile": "python-ext-release"}, source)
+        return None
+    summary, mism = None, []
+    for line in open(outp):
+        r = json.loads(line)
+        if r.get("summary"):
+            summary = r
+        else:
+            mism.append(r)
+    for r in mism:
+        if ctx.pid not in r.get("sc", []):
+            r["sc"] = r.get("sc", []) + [ctx.pid] if (r.get("kind") == "crash" or "raised" in r.get("why", "")) else r.get("sc", [])
+        ctx.verdicts.add(r, source)
+    ctx.evaluations += summary["cases"]
+    ctx.validated += summary["matched"]
+    for smp in summary.get("samples", []):
+        if len(ctx.samples) < 6:
+            ctx.samples.append(smp)
+    log("  python %s: %d calls into the built extension, %d agree, %d mismatch" % (source, summary["cases"], summary["matched"], summary["mismatched"]))
+    return summary
+
+
+def plan_C19(ctx):
+    ctx.rule = ("TLC runs the PyIface step model for apply x (20 rules + NaN) x (data omitted, 10 values, NaN) x serializer omitted/supplied x deserializer omitted/supplied and "
+                "apply_serialized x (20 rule texts + 4 malformed classes) x (data omitted, 10 texts, 4 malformed classes) x deserializer omitted/supplied; each terminal state is a "
+                "scenario executed against the extension built from the working tree: returned value compared type-strictly with the specification's, exception type must be ValueError, "
+                "supplied callables must be called (2 serializer calls, 1 deserializer call)")
+    scen = ctx.mc("MC_C19")
+    ctx.mc("MC_C19", cfg="MC_C19_live", export=False, tag="MC_C19_live")
+    run_py_scenarios(ctx, scen, "python-scenarios")
+    with open(scen) as f:
+        for i, line in enumerate(f):
+            ctx.nontrivial.add(("scenario", i))
+    ctx.exhaustive = True
+    ctx.assumptions.append("objects json.dumps itself rejects are outside the statement (the exception then comes from the serializer, not the library); CPython 3.11 of this image")
+
+
+def cases_to_process_scenarios(cases_path, out_cli, out_py, every):
+    """Turn exported in-process cases into scenarios for the real CLI binary and the Python extension."""
+    n = 0
+    with open(out_cli, "w") as fc, open(out_py, "w") as fp:
+        for i, line in enumerate(open(cases_path)):
+            c = json.loads(line)
+            if c.get("fn"):
+                continue
+            ident = c.get("id")
+            keep = (i % every == 0) or (isinstance(ident, list) and ident and ident[0] == "data")
+            if not keep:
+                continue
+            n += 1
+            exp = c["exp"]
+            lines = list(exp["log"]) + ([exp["v"]] if exp["ok"] else [])
+            # C01 pins the outcome class at the process boundary: exit status 0/1 and no crash; the lines are compared too
+            fc.write(json.dumps({"id": ident, "rule": {"valid": True, "v": c["rule"]}, "mode": 1 + (n % 3), "data": {"valid": True, "v": c["data"]},
+                                 "exp": {"status": "zero" if exp["ok"] else "nonzero", "out": lines}, "pipe": []}) + "\n")
+            fp.write(json.dumps({"id": ident, "entry": "apply", "value": {"valid": True, "v": c["rule"]}, "data": {"valid": True, "v": c["data"]},
+                                 "ser": "omitted", "deser": "omitted",
+                                 "exp": {"kind": "return", "v": exp["v"], "via": "std"} if exp["ok"] else {"kind": "raise", "exc": "ValueError"}}) + "\n")
+    return n
+
+
+def run_nest(ctx, profiles):
+    bins = ctx.bins(profiles)
+    for prof in profiles:
+        outp = os.path.join(ctx.wd, "nest-%s.out" % prof)
+        rc, out = vcheck.run([bins[prof], "nest", outp] + (["--deep"] if ctx.deep else []))
+        if rc != 0:
+            raise ToolError("harness nest failed: " + out[-2000:])
+        summary = None
+        for line in open(outp):
+            r = json.loads(line)
+            if r.get("summary"):
+                summary = r
+            else:
+                ctx.verdicts.add(r, "nesting/" + prof)
+        ctx.evaluations += summary["cases"]
+        ctx.validated += summary["matched"]
+        ctx.samples.extend(summary.get("samples", [])[:2])
+        ctx.notes.setdefault("nesting", []).append({"profile": summary["profile"], "child_processes": summary["cases"], "classes": summary["classes"], "crashed": summary["crashed"]})
+        log("  nesting [%s]: %d child processes (37 shapes x nesting levels up to and beyond the parser's limit x 8 MiB / 2 MiB stacks): %s, %d crashed" % (
+            summary["profile"], summary["cases"], summary["classes"], summary["crashed"]))
+
+
+def plan_C01(ctx):
+    ctx.rule = ("(i) TLC evaluates every semantic function of the specification on every tag of value in every operand position of all 35 operators at counts 0..4, and on 41 extreme "
+                "values (all 64-bit / double boundaries, 4-byte characters, odd path strings) in every position of otherwise benign operand lists and as the data under lookups "
+                "(totality of the spec; termination, deadlock-freedom and the stack bound of the machine are model-checked on the C05 family); (ii) every case is replayed in THREE build "
+                "profiles (debug, release, release+overflow-checks): any panic, abort or hang is a violation, Ok/Err must be the specification's; (iii) 37 nesting shapes x levels up to and "
+                "beyond JSON depth 128 are built as text and evaluated in child processes on 8 MiB and 2 MiB stacks; (iv) a sample of the family is run through the real CLI binary "
+                "(exit status 0/1, no signal, no panic message) and the built Python extension (only ValueError)")
+    profiles = ("debug", "release", "relchk")
+    cases = ctx.mc("MC_C01")
+    ctx.replay(cases, profiles=profiles)
+    ctx.mc("MC_Machine", cfg="MC_Machine_live", env={"VERIF_FAMILY": "C05"}, tag="MC_Machine_live_C05", export=False)
+    ctx.mc("MC_Machine", env={"VERIF_FAMILY": "C14"}, tag="MC_Machine_C14", export=True)
+    run_nest(ctx, profiles)
+    cli_s = os.path.join(ctx.wd, "proc-cli.ndjson")
+    py_s = os.path.join(ctx.wd, "proc-py.ndjson")
+    n = cases_to_process_scenarios(cases, cli_s, py_s, 4 if ctx.deep else 16)
+    run_cli_scenarios(ctx, cli_s, "cli-extremes", sc_prop="C01")
+    run_py_scenarios(ctx, py_s, "python-extremes")
+    if ctx.deep:
+        # the index / cast / conversion heavy families of other properties, in the overflow-checked release profile as well
+        for mod, env in (("MC_C11", None), ("MC_C16", None), ("MC_C12", None), ("MC_C10", None)):
+            cs = ctx.mc(mod, env=env)
+            ctx.replay(cs, profiles=("relchk",))
+    ctx.assumptions.append("hangs are detected by a watchdog on the code (20 s) and proved absent only for the specification (machine termination under weak fairness)")
+    ctx.assumptions.append("not every 64-bit integer / double: boundary classes of each abs, try_into, checked_*, cast and comparison in the code, plus the families of the other properties")
+
+
 PLANS = {
+    "C01": plan_C01,
+    "C19": plan_C19,
     "C18": plan_C18,
     "C17": plan_C17,
     "C04": plan_C04,
